@@ -2,7 +2,8 @@ import MlsVerif.Model.Framing
 import MlsVerif.Model.Pending
 import MlsVerif.Model.External
 import MlsVerif.Model.Resumption
-/-! Line protocols of the small decision-logic models: C11 (`run …`), C16 (`adm …`), C17 (`sub …`, `join …`). -/
+import MlsVerif.Model.Lifetime
+/-! Line protocols of the small decision-logic models: C11 (`run …`), C16 (`adm …`), C17 (`sub …`, `join …`), C10 lifetime (`life …`). -/
 namespace Driver.Small
 open MlsVerif
 
@@ -89,6 +90,11 @@ def handle (ws : List String) : String :=
       | .error .groupIdMismatch => "GroupIdMismatch"
       | .error .reInitExtensionsMismatch => "ReInitExtensionsMismatch"
     | _, _, _, _ => "bad-op"
+  | ["life", nb, na, t] =>
+    -- key-package lifetime against a clock (`-` = no clock): verdict on the Add
+    match nb.toNat?, na.toNat?, (if t = "-" then some none else t.toNat?.map some) with
+    | some nb, some na, some clock => if Lifetime.addOk { notBefore := nb, notAfter := na } clock then "ok" else "err"
+    | _, _, _ => "bad-op"
   | ["unfilter", bits, n] =>
     -- the un-filtering loop of `validate_update_path`: filter flags of the sender's direct path, number of nodes sent
     let fs : Option (List Bool) := if bits = "-" then some [] else bits.toList.mapM (fun c => if c = '1' then some true else if c = '0' then some false else none)
